@@ -70,6 +70,17 @@ def encode_content(payload, coding, rng):
         c = zlib.compressobj(rng.choice((0, 1, 6, 9)), zlib.DEFLATED, rng.choice((15, 15, 9, 10, 12, 14)), rng.choice((8, 1, 9)),
                              rng.choice((zlib.Z_DEFAULT_STRATEGY, zlib.Z_FILTERED, zlib.Z_HUFFMAN_ONLY, zlib.Z_FIXED)))
         return c.compress(payload) + c.flush()
+    if coding == 'deflate-raw' and len(payload) >= 29 and rng.randrange(6) == 0:
+        # a raw deflate stream from another encoder: stored blocks, the ignored padding bits of the first block header not
+        # zero (RFC 1951 3.2.4) - its first two bytes 08 1d pass for a zlib header (RFC 1950: CM=8, 0x081d % 31 == 0)
+        out = bytearray(b'\x08' + (29).to_bytes(2, 'little') + (29 ^ 0xffff).to_bytes(2, 'little') + payload[:29])
+        rest = payload[29:]
+        while len(rest) > 65535:
+            out += b'\x00' + (65535).to_bytes(2, 'little') + (0).to_bytes(2, 'little') + rest[:65535]
+            rest = rest[65535:]
+        out += b'\x01' + len(rest).to_bytes(2, 'little') + (len(rest) ^ 0xffff).to_bytes(2, 'little') + rest
+        assert zlib.decompressobj(-15).decompress(bytes(out)) == payload
+        return bytes(out)
     if coding == 'deflate-raw':
         c = zlib.compressobj(rng.choice((0, 1, 6, 9)), zlib.DEFLATED, -rng.choice((15, 15, 9, 12)), rng.choice((8, 1, 9)),
                              rng.choice((zlib.Z_DEFAULT_STRATEGY, zlib.Z_HUFFMAN_ONLY, zlib.Z_FIXED)))
